@@ -58,7 +58,16 @@ def aliases(fn, seeds=None):
         if isinstance(st, ast.Assign) and len(st.targets) == 1 and isinstance(st.targets[0], ast.Name):
             defs.setdefault(st.targets[0].id, []).append(st.value)
     fresh = {n for n, vs in defs.items() if n not in ps and all(copy_kind(v, alias) == 'copy' for v in vs)}
-    rebound = {n for n, vs in defs.items() if any(copy_kind(v, alias) == 'copy' for v in vs)}
+    # rebinding an optional argument to a fresh object *when it is None* leaves the caller's object in place on the other path
+    rebound = set()
+    for st in ast.walk(fn):
+        if isinstance(st, ast.Assign) and len(st.targets) == 1 and isinstance(st.targets[0], ast.Name) and copy_kind(st.value, alias) == 'copy':
+            n = st.targets[0].id
+            from ..flow import guards_of as _g, facts as _f
+            fs = _f(_g(fn, st) or [])
+            if n in ps and ((n, 'is', 'None') in fs or (n, '==', 'None') in fs):
+                continue
+            rebound.add(n)
     return ps, alias - fresh, rebound
 
 
